@@ -369,6 +369,21 @@ func (m *Manager[T]) scan(id string) error {
 			return err
 		}
 
+		// The children of the node may have changed between the time they were
+		// read for the client's config (newClientState) and the time the above
+		// subscription became active -- such a change is in neither. Make sure
+		// the subscription is active, then look again and restart the client
+		// if it was started with a stale list of children.
+		if err := cs.nc.Flush(); err != nil {
+			log.Println("Error flushing subscription:", err)
+		}
+
+		children, err := GetNodes(m.nc, cs.node.ID, "all", "", false)
+		if err != nil {
+			log.Println("Error getting children:", err)
+		} else if !sameChildren(children, cs.nec.Children) {
+			cs.stop(nil)
+		}
 	}
 
 	// remove nodes that have been deleted
@@ -383,6 +398,26 @@ func (m *Manager[T]) scan(id string) error {
 	}
 
 	return nil
+}
+
+// sameChildren returns true if both lists hold the same child node IDs
+func sameChildren(a []data.NodeEdge, b []data.NodeEdgeChildren) bool {
+	if len(a) != len(b) {
+		return false
+	}
+
+	ids := make(map[string]bool, len(a))
+	for _, n := range a {
+		ids[n.ID] = true
+	}
+
+	for _, n := range b {
+		if !ids[n.ID] {
+			return false
+		}
+	}
+
+	return true
 }
 
 func mapKey(node data.NodeEdge) string {
